@@ -48,7 +48,8 @@ ASSUMPTIONS = [
     'exp, log and **0.75 are opaque in the correspondence (same rational stand-in on both sides) and are the real functions '
     '(Coq Reals: exp, ln, Rpower _ (3/4)) in the theorems',
     'Gibbs-Duhem for the residual (group) part and for the whole coefficient are theorems over R about the translated kernels '
-    '(open simplex / positive orthant, positive Q and psi, array shapes as __new__ builds them); on the real objects the relation '
+    '(residual part: closed orthant with some present chemical carrying a group; whole coefficient: open simplex; positive Q and psi, '
+    'array shapes as __new__ builds them); on the real objects the relation '
     'is still measured by oracle() with central finite differences (relative 1e-5), and the analytic Jacobian d ln(gamma_i^R)/dx_j '
     'of the model (ModelJac.resid_jac, proved to be that derivative) is compared on every group-path case with the derivative '
     'measured on thermosteam\'s compiled group_activity_coefficients (self-consistent Richardson differences, 1e-5 relative)',
@@ -501,7 +502,7 @@ def real_call(G, case, safe):
     return out
 
 JAC_TOL = F(1, 10 ** 5)
-def _short(a, bits=16):
+def _short(a, bits=12):
     """the same floats kept to `bits` significant bits: the kernel is evaluated AT these values (they are its inputs), and
     the exact rational evaluation of the model in Coq on the same values stays small"""
     m, e = np.frexp(np.asarray(a, float))
@@ -509,7 +510,7 @@ def _short(a, bits=16):
 def resid_jacobian_fd(G, case):
     """d ln(gamma_i^R) / d x_j MEASURED on thermosteam's compiled group_activity_coefficients (zero combinatorial term, the
     object's own arrays, psis from the module's psi function at T, group_psis filled through the object's mask) by central
-    differences with one Richardson step, at the renormalised sub-composition of the members with groups, with x, psis and Qs kept to 16 significant bits (closed orthant:
+    differences with one Richardson step, at the renormalised sub-composition of the members with groups, with x, psis and Qs kept to 12 significant bits (closed orthant:
     zero entries allowed; the theorems hold there).  None when the point is outside it or the measurement is not self-consistent.  Everything returned is the exact rational value of
     the float, so the model's Jacobian (ModelJac.resid_jac) is evaluated in Coq on exactly the inputs the kernel saw."""
     e = env(); ac = e['ac']
